@@ -96,8 +96,9 @@ def check_trace(events, *, save_at, eps, clip, fmin, fmax, dt0, result_t, result
                 bad("R3", f"controller input dt={e['dt_in']} is not the attempted dt={pending['dt']}", i)
             if e["ep"] != pending_err["ep"]:
                 bad("R3", "controller saw a different error than the estimator returned", i)
-            ratio = e["dt_out"] / e["dt_in"]
-            if not (fmin * (1 - 1e-14) <= ratio <= fmax * (1 + 1e-14)):
+            ratio = e["dt_out"] / e["dt_in"] if e["dt_in"] > 0 else 1.0
+            # below ~1e-300 products fall into the subnormal range, which XLA flushes to zero: not judged
+            if e["dt_in"] > 1e-290 and not (fmin * (1 - 1e-14) <= ratio <= fmax * (1 + 1e-14)):
                 bad("R3", f"proposal/attempt = {ratio} outside [{fmin}, {fmax}]", i)
             proposal = e["dt_out"]
             if pending_err["ep"] >= 1.0:
